@@ -2161,6 +2161,38 @@ func (p *posBound) leLen0(v ssa.Value, blk *ssa.BasicBlock, depth int) bool {
 	if p.ltLen(v, blk) {
 		return true
 	}
+	// a dominating test v <= len(s)
+	for d := blk; d != nil; d = d.Idom() {
+		parent := d.Idom()
+		if parent == nil {
+			break
+		}
+		c, neg := condOf(parent)
+		bo, ok := c.(*ssa.BinOp)
+		if !ok || len(parent.Succs) != 2 {
+			continue
+		}
+		onTrue := (parent.Succs[0] == blk || parent.Succs[0].Dominates(blk)) && len(parent.Succs[0].Preds) == 1
+		onFalse := (parent.Succs[1] == blk || parent.Succs[1].Dominates(blk)) && len(parent.Succs[1].Preds) == 1
+		if onTrue == onFalse {
+			continue
+		}
+		holds := onTrue != neg
+		x, y, op := bo.X, bo.Y, bo.Op
+		if !holds {
+			switch op {
+			case token.GTR:
+				op = token.LEQ
+			case token.LSS:
+				op = token.GEQ
+			default:
+				continue
+			}
+		}
+		if (op == token.LEQ && sameFieldVal(x, v) && p.isLen(y)) || (op == token.GEQ && sameFieldVal(y, v) && p.isLen(x)) {
+			return true
+		}
+	}
 	// a position handed back by a scanning helper that was handed the text and a position
 	// below its length: every return of the helper hands back a position within the text
 	if call, idx, fld, ok := resultPiece(v); ok && fld < 0 && p.depth < 2 {
